@@ -389,13 +389,21 @@ class PreferenceProfile:
             return False
         pp_1 = self.condense_ballots()
         pp_2 = other.condense_ballots()
-        for b in pp_1.ballots:
-            if b not in pp_2.ballots:
-                return False
-        for b in pp_2.ballots:
-            if b not in pp_1.ballots:
-                return False
-        return True
+
+        # compare the total weight of every (ranking, scores) content. Ballot.__eq__ treats
+        # missing scores as a wildcard, so membership tests on the ballot tuples let profiles
+        # with different score ballots compare equal.
+        def content_weights(pp):
+            return {
+                (
+                    b.ranking,
+                    frozenset(b.scores.items()) if b.scores else None,
+                ): b.weight
+                for b in pp.ballots
+                if b.weight != 0
+            }
+
+        return content_weights(pp_1) == content_weights(pp_2)
 
     def _sum_row(self, df: pd.DataFrame) -> pd.DataFrame:
         """
